@@ -456,6 +456,57 @@ func (c *Ctx) ord10() {
 		}
 		a.done(0, "no validator call or deny return follows a side effect")
 		v.done(1, "every entry path to the first side effect passed the validators")
+		// an invalid argument is answered with a deny error, whatever state
+		// the client is in: nothing but a deny error may be returned before
+		// the arguments went through the validators
+		if name != "initSession" && name != "AdoptSession" {
+			d := c.acc("ORD-10", fn, "error-before-validation⇒deny-class")
+			hdrs := map[*ssa.BasicBlock]bool{}
+			for _, q := range c.Paths("ORD-10", fn) {
+				if q.Start == fn.Blocks[0] || q.End != pathx.KLoopBack {
+					continue
+				}
+				if q.Index(0, func(e *pathx.Event) bool {
+					return e.Kind == pathx.KCall && e.Callee != nil && validators[load.FuncName(e.Callee)]
+				}) >= 0 {
+					hdrs[q.Start] = true
+				}
+			}
+			for _, p := range c.Paths("ORD-10", fn) {
+				if p.Start != fn.Blocks[0] || p.End != pathx.KReturn {
+					continue
+				}
+				last := len(p.Events) - 1
+				res := p.Events[last].Results
+				if len(res) == 0 || retErr(p, last) == triNil {
+					continue
+				}
+				validated := p.Index(0, func(e *pathx.Event) bool {
+					return e.Kind == pathx.KCall && e.Callee != nil && validators[load.FuncName(e.Callee)]
+				}) >= 0
+				for _, b := range p.Blocks {
+					if hdrs[b] {
+						validated = true
+					}
+				}
+				if validated {
+					d.pass()
+					continue
+				}
+				bad := ""
+				for k := range classes(ef.of(res[len(res)-1])) {
+					if !deny[k] {
+						bad = k
+					}
+				}
+				if bad == "" {
+					d.pass()
+				} else {
+					d.fail(p, last, "an error of class %s is returned before the arguments were validated: a request with an invalid argument is answered with it instead of an IsDeny error (and Backoff offers a retry for a request that can never succeed)", bad)
+				}
+			}
+			d.done(1, "every failure ahead of the validators is a deny error")
+		}
 	}
 	c.S.Floor("ORD-10", "entry paths reaching a side effect", n, 9)
 }
